@@ -253,7 +253,9 @@ fn gen_indices(r: &mut Rng, n: usize, enc: Encoding, big: bool) -> Vec<u32> {
 fn gen_fields(r: &mut Rng, u: &Universe, cfg: &GenCfg, enc: Encoding, shape: Shape, max: usize, prefix: &str, all_optional: bool, param: bool) -> Vec<Field> {
     if shape == Shape::Unit { return vec![] }
     let many = r.chance(4);
-    let n = if many { 24 + r.below(6) } else { 1 + r.below(max) };
+    // now and then a type without any encoded field (`S {}`, `S()`, `V {}`, `V()`, or only skipped fields): it still has to
+    // step over whatever a newer version put into its body
+    let n = if many { 24 + r.below(6) } else if !param && !all_optional && r.chance(6) { 0 } else { 1 + r.below(max) };
     let idx = gen_indices(r, n, enc, false);
     let mut fields: Vec<Field> = Vec::new();
     let mut used_param = false;
@@ -405,8 +407,12 @@ pub fn edit_from(r: &mut Rng, base: &Universe, start: Universe, cfg: &GenCfg, n:
         let snapshot = u.clone();
         match &mut u.defs[di] {
             Def::Struct(s) => {
-                if s.transparent || s.shape == Shape::Unit { continue }
-                if r.chance(65) {
+                if s.transparent { continue }
+                let empty = s.fields.iter().all(|f| f.skip);
+                if s.shape == Shape::Unit && !r.chance(50) { continue }
+                if s.shape == Shape::Unit || empty || r.chance(65) {
+                    // (a unit struct that gains a field becomes a named struct)
+                    if s.shape == Shape::Unit { s.shape = Shape::Named }
                     serial += 1;
                     // never re-use an index the base version assigned (possibly to a field dropped meanwhile)
                     let base_used: Vec<u32> = match &base.defs[di] { Def::Struct(b) => b.fields.iter().filter(|f| !f.skip).map(|f| f.idx).collect(), _ => vec![] };
@@ -491,7 +497,8 @@ fn insert_first(s: &mut StructDef, mut f: Field, r: &mut Rng) {
 
 /// A (base, newer, edit log) pair whose first edit is of the kind selected by `focus`; up to two random
 /// compatible edits follow. focus: 0 = random, 1 = add variant to an optional-only enum (regular / index_only),
-/// 2 = unit variant -> variant with optional fields, 3 = tagged optional field at a gap index, 4 = drop optional field.
+/// 2 = unit variant -> variant with optional fields, 3 = tagged optional field at a gap index, 4 = drop optional field,
+/// 5 = a type without encoded fields gains optional fields.
 pub fn gen_pair(r: &mut Rng, cfg: &GenCfg, focus: usize, prefix: &str) -> Option<(Universe, Universe, Vec<String>)> {
     let mut log = Vec::new();
     let (base, mut newer) = match focus {
@@ -582,6 +589,26 @@ pub fn gen_pair(r: &mut Rng, cfg: &GenCfg, focus: usize, prefix: &str) -> Option
             }
             (u, n)
         }
+        5 => {
+            // a type without encoded fields gains optional fields
+            let shape = *r.pick(&[Shape::Unit, Shape::Tuple, Shape::Named, Shape::Named]);
+            let encoding = match r.below(3) { 0 => None, 1 => Some(Encoding::Array), _ => Some(Encoding::Map) };
+            let tag = if r.chance(25) { Some(*r.pick(&TAGS)) } else { None };
+            let mut fields = Vec::new();
+            if shape == Shape::Named && r.bool_() { fields.push(Field { idx: 0, b: false, ty: Ty::U8, optional: false, tag: None, skip: true, name: "fskipped".into(), long_attr: false, fwd: 0 }) }
+            let s = StructDef { name: format!("{}T0", prefix), shape, encoding, tag, transparent: false, fields, generic: false };
+            let u = Universe { defs: vec![Def::Struct(s)] };
+            let mut n = u.clone();
+            if let Def::Struct(s) = &mut n.defs[0] {
+                if s.shape == Shape::Unit { s.shape = Shape::Named }
+                for k in 0 .. 1 + r.below(3) {
+                    let f = new_optional_field(r, &Universe { defs: vec![] }, cfg, &s.fields, s.enc(), format!("gained{}", k), &[]);
+                    log.push(format!("{}: a type without fields gains optional field #{}", s.name, f.idx));
+                    s.fields.push(f);
+                }
+            }
+            (u, n)
+        }
         _ => {
             let mut base = gen_universe(r, cfg, prefix);
             let mut tries = 0;
@@ -664,7 +691,7 @@ pub fn build_chunk(chunk: usize, nchunks: usize) {
     for i in (0 .. npairs).filter(|i| i % nchunks == chunk) {
         let mut r = Rng::new(seed.wrapping_mul(7_000_003).wrapping_add(0x5EED_0000 + i as u64));
         // top-level enums cannot change compatibly: pairs are rooted at structs
-        let (base, mut newer, log) = match gen_pair(&mut r, &cfg, i % 5, &format!("P{}o", i)) { Some(x) => x, None => continue };
+        let (base, mut newer, log) = match gen_pair(&mut r, &cfg, i % 6, &format!("P{}o", i)) { Some(x) => x, None => continue };
         for d in newer.defs.iter_mut() { match d { Def::Struct(s) => s.name = s.name.replacen("o", "n", 1), Def::Enum(e) => e.name = e.name.replacen("o", "n", 1) } }
         src.push_str(&emit::universe_source(&base));
         src.push_str(&emit::universe_source(&newer));
